@@ -321,6 +321,7 @@ def run(prog, ctx):
     cm = cfg_of(mv)
     rets = R.return_paths(mv)[0]
     ok = False
+    var = None
     why = "no (expectation, variance) pair returned"
     if rets and isinstance(rets[0].ast.value, ast.Tuple) and len(rets[0].ast.value.elts) == 2 and isinstance(rets[0].ast.value.elts[1], ast.Name):
         var = rets[0].ast.value.elts[1].id
@@ -379,7 +380,7 @@ def run(prog, ctx):
               "moments_to_expectation_variance can return a negative variance: " + why)
     # variance = second moment - expectation^2, element-wise with matching indices
     okv = False
-    for b in tmm.env.bindings.get(var if rets else "variance", []):
+    for b in tmm.env.bindings.get(var if (rets and var is not None) else "variance", []):
         if b.kind == "assign":
             t = Terms(mv.node).term(b.value)
             if t[0] == "comp" and len(t[3]) == 1:
